@@ -290,6 +290,28 @@ def check_index(data, case, pres, mods):
     if not close(sh, want_sh):
       bad.append(('AggregateGeoShare', 'positions %r of %r: %r, expected %s' % (sorted(s), order, float(sh), want_sh)))
       break
+  n = len(order)
+  if not bad and n >= 2 and order != order[::-1]:
+    # the caller reverses ITS list in place and assigns the same object again: positions now count from the other
+    # end, i.e. position p of the new index is position n-1-p of the old one
+    given.reverse()
+    try:
+      data.geo_index = given
+      for a in seq(case['aggs']):
+        s2 = {n - 1 - p for p in seq(a['s'])}
+        ts = np.asarray(data.aggregate_time_series(set(s2)))
+        want_ts = seq(a['ts'])
+        if ts.shape != (ncols,) or not all(close(x, w) for x, w in zip(ts, want_ts)):
+          bad.append(('AggregateAfterReassignment', 'index reversed in place and assigned again: positions %r of %r: %r, '
+                      'expected %r' % (sorted(s2), given, ts.tolist(), want_ts)))
+          break
+        sh = data.aggregate_geo_share(set(s2))
+        if not close(sh, fractions.Fraction(a['share'][0], a['share'][1])):
+          bad.append(('AggregateAfterReassignment', 'index reversed in place and assigned again: share of positions %r '
+                      'of %r is %r' % (sorted(s2), given, float(sh))))
+          break
+    except Exception as e:  # pylint: disable=broad-except
+      bad.append(('AggregateAfterReassignment', '%s: %s' % (type(e).__name__, e)))
   return bad
 
 
